@@ -208,6 +208,10 @@ func verifyPublicKeyEdDSA(mesage []byte, signature []byte, key jwk.Key) (bool, e
 		if okpKey.Raw(&ed25519Key) != nil {
 			return false, ErrKeyTypeMismatch
 		}
+		// A JWK can carry an "x" value of any length, and ed25519.Verify panics on a key that is not 32 bytes long
+		if len(ed25519Key) != ed25519.PublicKeySize {
+			return false, ErrKeyTypeMismatch
+		}
 		return ed25519.Verify(ed25519Key, mesage, signature), nil
 
 	default:
